@@ -363,7 +363,13 @@ def place_intents(rng, ops, kinds, rate):
             if "dep" in order and rng.random() < 0.6:      # a dependency failure where the operation offers one
                 order.remove("dep")
                 order.insert(0, "dep")
-            intents.append({"step": i, "kinds": order, "u": fhex(rng.random()), "mode": rng.choice(["before", "before", "after"]),
+            u = rng.random()
+            r2 = rng.random()
+            if r2 < 0.35:
+                u = u * u * u      # early in the operation: where module globals and per-object attributes are being written
+            elif r2 < 0.5:
+                u = 1.0 - u * u * u   # late: between the last state update and the return
+            intents.append({"step": i, "kinds": order, "u": fhex(u), "mode": rng.choice(["before", "before", "after"]),
                             "exc": rng.choice(["RuntimeError", "ValueError"])})
     return intents
 
